@@ -349,6 +349,8 @@ package slice
 //@   at after "out = append(out, Edit[T]{Op: OpReplace, X: lhs[lpos:lend], Y: rhs[rpos:rend]})": assert [C11] scriptUpTo(out, lhs, rhs, eq, lp, rp, lend, rend)
 //@   at after "out = append(out, Edit[T]{Op: OpDrop, X: lhs[lpos:lend]})": assert [C11] scriptUpTo(out, lhs, rhs, eq, lp, rp, lend, rpos)
 //@   at after "out = append(out, Edit[T]{Op: OpCopy, Y: rhs[rpos:rend]})": assert [C11] scriptUpTo(out, lhs, rhs, eq, lp, rp, lend, rend)
+//@   at after "out = append(out, Edit[T]{Op: OpEmit, X: lhs[lpos : lpos+m]})": assert [C11] editOK(out[len(out) - 1], lhs, rhs, eq, lpos, rpos, lpos + m, rpos + m) && lp[len(out) - 1] == lpos && rp[len(out) - 1] == rpos && lp[len(out)] == lpos + m && rp[len(out)] == rpos + m
+//@   at after "out = append(out, Edit[T]{Op: OpEmit, X: lhs[lpos : lpos+m]})": assert [C11] forall k int :: {out[k]} 0 <= k && k < len(out) - 1 ==> editOK(out[k], lhs, rhs, eq, lp[k], rp[k], lp[k + 1], rp[k + 1])
 //@   at after "out = append(out, Edit[T]{Op: OpEmit, X: lhs[lpos : lpos+m]})": assert [C11] scriptUpTo(out, lhs, rhs, eq, lp, rp, lpos + m, rpos + m)
 //@   at after "out = append(out, Edit[T]{Op: OpReplace, X: lhs[lpos:], Y: rhs[rpos:]})": assert [C11] scriptUpTo(out, lhs, rhs, eq, lp, rp, len(lhs), len(rhs))
 //@   at after "out = append(out, Edit[T]{Op: OpDrop, X: lhs[lpos:]})": assert [C11] scriptUpTo(out, lhs, rhs, eq, lp, rp, len(lhs), rpos)
